@@ -285,6 +285,12 @@ Alphabet ==
           MAdd("A", "h", "Decimal", D2("max_digits", 6, "decimal_places", 2), "i"),
           MAdd("A", "h", "DateTime", D1("null", TRUE), None),
           MAdd("A", "h", "Text", EmptyDict, "i"),
+          \* initial values that Python regards as false (0, False, the empty string), on columns
+          \* that need one and on nullable columns that do not
+          MAdd("A", "h", "Int", D1("null", TRUE), "z"), MAdd("A", "h", "Int", EmptyDict, "z"),
+          MAdd("A", "h", "Bool", D1("null", TRUE), "z"), MAdd("A", "h", "Bool", EmptyDict, "z"),
+          MAdd("A", "h", "Char", D2("max_length", 10, "null", TRUE), "z"),
+          MAdd("A", "h", "Decimal", D3("max_digits", 6, "decimal_places", 2, "null", TRUE), "z"),
           MChg("A", "g", "BigInt", D1("null", TRUE), None),
           MChg("A", "h", None, D1("null", TRUE), None),
           MChg("A", "h", None, D1("db_index", TRUE), None),
